@@ -23,7 +23,7 @@ BAD = 'bad\udcff'      # a file name that is not valid UTF-8 (surrogate-escaped 
 
 ASSUMPTIONS = [
     'file system / walkdir model as in C02; file names are concrete strings of a stated universe (dot-files, multi-dot names, a name equal to an extension, a name that is not valid UTF-8, .zinoma at several depths); kinds are symbolic',
-    'notify model: Watcher::new stores the handler; watch(path) fails with PathNotFound iff the path does not exist (documented contract; the real back end may report other error kinds, see DESIGN)',
+    'notify model: Watcher::new stores the handler; watch(path) fails iff the path does not exist, with ErrorKind::PathNotFound or with ErrorKind::Io(NotFound) (back ends differ: the inotify back end of notify 6 wraps the io error); any other error is a separate oracle',
     'events: Ok(paths of the event-path universe, 1 or 2 per event) or Err; the invalidation slot may be full or empty (symbolic)',
     'reference semantics: listing = regular files at/below a declared path, not below a component named .zinoma, name ends with one of the dot-normalised extensions; relevant event path = not an editor temporary (*~, .*.swp, .*.swx), no component named .zinoma, name matches the extensions',
 ]
@@ -51,6 +51,10 @@ class WatchWorld(VfsWorld):
             I.effect('watch', idx=v.get('idx'), path=path)
             k = self.kind(path)
             if I.branch(simp(k == ABSENT)):
+                # which error a back end reports for a missing path is not uniform: notify's own PathNotFound (fsevent, windows, poll)
+                # or the wrapped io error (inotify, kqueue)
+                if I.branch(z3.Bool('watch_missing_reported_as_io_error_%s' % path)):
+                    return err(Opaque('Error', kind=REnum('ErrorKind', 'Io', {0: Opaque('IoError', msg='No such file or directory', kind=REnum('ErrorKind', 'NotFound'))}), paths=RVec.of([path])))
                 return err(Opaque('Error', kind=REnum('ErrorKind', 'PathNotFound'), paths=RVec.of([path])))
             if I.branch(z3.Bool('watch_other_error_%s' % path)):
                 return err(Opaque('Error', kind=REnum('ErrorKind', 'MaxFilesWatch'), paths=RVec.of([path])))
@@ -505,6 +509,32 @@ def native_watch_multi(decl, event_path, repo):
 
 
 
+def native_missing_path(repo):
+    """--watch on a target one of whose declared input paths does not exist: (a) real code over the notify model reporting the
+    missing path as Io(NotFound), (b) the real binary with the real notify crate and this machine's back end."""
+    import subprocess
+    from ..native import build_real
+    binpath, info = build_native(repo)
+    root = tempfile.mkdtemp(prefix='zx-missing-', dir=os.environ.get('VERIF_SCRATCH', '/var/tmp'))
+    try:
+        os.makedirs(root + '/p/src')
+        open(root + '/p/src/a.rs', 'w').write('0')
+        open(root + '/p/zinoma.yml', 'w').write('targets:\n  t:\n    build: echo t\n    input:\n      - paths: [src, not_there_yet]\n')
+        sched = ['poll 0 t0.1 all', 'poll 2 t0.4 1', 'poll 0 t0.1 all', 'poll 2 t0.4 1', 'poll 0 t0.1 all', 'poll 2 -', 'poll 0 t0.1 all', 'exitscript 0 echo t', 'poll 2 -', 'poll 0 t0.1 all',
+                 'signal', 'poll 1 -', 'poll 0 t0.0 1', 'drain']
+        r = run_native(binpath, root + '/p', ['--watch', 't'], sched, timeout=60, extra_env={'ZX_NOTIFY_MISSING': 'io'})
+        a = {'rc': r['rc'], 'spawns': sum(1 for l in r['log'] if l.startswith('proc_spawn')), 'stderr': r['stderr'][-300:]}
+        real = build_real(repo)
+        try:
+            o = subprocess.run(['timeout', '-k', '2', '5', real, '-p', root + '/p', '--watch', 't'], capture_output=True, text=True, timeout=30)
+            b = {'rc': o.returncode, 'stderr': o.stderr[-300:], 'failed_at_startup': o.returncode not in (0, 124, 137) and 'Error watching path' in o.stderr}
+        except Exception as ex:   # pragma: no cover
+            b = {'error': str(ex), 'failed_at_startup': False}
+        return {'model_runtime_io_variant': a, 'real_binary': b}
+    finally:
+        shutil.rmtree(root, ignore_errors=True)
+
+
 def native_watch(exts, event_paths, repo, is_err=False):
     """Real watcher code over the notify model: deliver one event, then an ordinary change; returns (panicked, builds)."""
     binpath, info = build_native(repo)
@@ -649,6 +679,9 @@ def run(prop, tier, seed, repo, jobs):
                         panicked, spawns, rc, tail = native_watch(exts, ['/p/src/a.rs'], repo)
                         nat = {'panicked': panicked, 'spawns': spawns, 'expected_spawns': 3, 'rc': rc}
                         confirmed = (not panicked) and spawns < 3
+                    elif ob['name'].startswith('missing_paths_do_not_fail_startup'):
+                        nat = native_missing_path(repo)
+                        confirmed = nat['model_runtime_io_variant']['rc'] not in (0, 98) or nat['real_binary']['failed_at_startup']
                     else:
                         nat = {'note': 'no native procedure for this obligation'}
                 except Exception as ex:   # pragma: no cover
